@@ -7,7 +7,8 @@ claim("C08", "grammar-language enumeration vs operator-table keys (AST + types),
       "Decides structural necessary conditions of the source-level equivalences: (R08a) every operator token the compiled wbnf grammar "
       "can produce has an entry in the operator table the compiler indexes with it (a lone ~ is a declared over-generation); (R08b) &&, || and if/else "
       "evaluate their later operands only under a branch on the first operand's value; (R08e) no constructor in binops/unops returns an expression "
-      "that dropped a non-literal operand (compile-time folding cannot skip an evaluation); (R08d) let and arrow share one constructor chain. A pass does not show the "
+      "that dropped a non-literal operand (compile-time folding cannot skip an evaluation); (R08d) let and arrow share one constructor chain; (R08c) a folding New…Expr constructor and its expression's Eval hand the value "
+      "constructor the same scalar options (folded and unfolded literals mean the same). A pass does not show the "
       "equivalences themselves (that needs evaluation); a failure shows a source text on which compile/eval crashes instead of behaving "
       "like its documented equivalent.", NOTE, "DESIGN.md §3 C08")
 
@@ -17,7 +18,8 @@ claim("C06", "type-specialised SCCP over go/ssa on all ordered pairs of value ty
       "order on types is transitive and agrees with Kind(); no same-kind Less definitely panics; (R06b) Kind() constants distinct and registered once; "
       "(R06c) < > <= >= (and negations) in compareOps match the truth table of a strict total order; (R06d) every sort/ordered-range comparator "
       "decides through Value.Less in the forward direction; (R06e) max/min reducers pick by Less in the right direction; (R06f) the cached attribute-name order that GenericTuple.Less and Format walk is "
-      "only ever stored sorted. Within-kind comparisons "
+      "only ever stored sorted; (R06g) no Less method returns the bare negation of a Less (>= instead of the reversed <); (R07d) no Less method reaches a "
+      "Hash call. Within-kind comparisons "
       "(value-level, e.g. Relation.Less with differing headings) are not decided.", NOTE, "DESIGN.md §3 C06")
 
 claim("C01", "type-specialised SCCP over every pair of set representations (dispatch totality), symbolic bucket-routing agreement, rows-provenance rule over go/ssa",
@@ -25,14 +27,15 @@ claim("C01", "type-specialised SCCP over every pair of set representations (disp
       "SymmetricDifference (13x13 representation pairs), PowerSet, With/Without/Has (13x19) definitely panics, and the panicking "
       "UnionSet.unionSetSubsetBucket is unreachable; (R01b) element-type bucket == subset bucket of the set type its builder constructs, sets "
       "route to the generic bucket; (R01c) adding a foreign element to String/Bytes/Array/Dict always goes through toUnionSetWithItem (never "
-      "dropped); (R01d) stored rows of two relations are only combined under explicit column projectors; (R03a, shared with C03) no operator writes "
+      "dropped); (R01d) stored rows of two relations are only combined under explicit column projectors; (R02f, shared with C02) the derived count of a slot builder counts distinct slots; (R03a, shared with C03) no operator writes "
       "into storage an operand or an earlier result still reaches (a result that overwrites its sibling makes a later union/difference wrong). Member arithmetic inside one "
       "representation (Count, Where, Has on colliding keys) is value-level and not decided.", NOTE, "DESIGN.md §3 C01")
 
 claim("C03", "interprocedural slice/map ownership analysis over go/ssa (flow-sensitive local cells, per-field result summaries, VTA-resolved calls)",
       "Decides the mechanism the property names (slice/map aliasing): (R03a) no append, element store, copy destination, in-place sort, map update "
       "or delete - directly or by passing to a parameter the callee mutates - acts on a slice or map that may alias storage reachable from an "
-      "existing value, anywhere in the module (570 sinks). Covers every history at once because it is a property of each write site, not of a run. "
+      "existing value, anywhere in the module (570 sinks), including a slice captured by a closure that can run more than once and is extended "
+      "without being written back (partial applications sharing one argument array). Covers every history at once because it is a property of each write site, not of a run. "
       "frozen's persistent maps/sets are trusted; mutation through Export() by a host program is outside.", NOTE, "DESIGN.md §3 C03")
 
 claim("C19", "flag-fixed CFG reachability (dry-run purity and validation completeness), dominance of the dry pass, type-switch fall-through, guard-dominates-use on joined paths, unused-error-result scan",
@@ -40,7 +43,8 @@ claim("C19", "flag-fixed CFG reachability (dry-run purity and validation complet
       "(R19b) the real pass is dominated by the dry pass on the same arguments and runs only if it returned nil; (R19c) the kind switch over entry "
       "contents ends in an error for unmatched kinds; (R19d) a rejecting test on the joined path dominates every use of it; (R19e) no error result in "
       "out.go is dropped; (R19f) no description error and no validating callee is reachable only when the flag is false without a dry-side twin; (R19g) where the dry pass "
-      "validates against an empty scratch filesystem, the real pass's call is dominated by RemoveAll of that path. "
+      "validates against an empty scratch filesystem, the real pass's call is dominated by RemoveAll of that path; (R19h) a deferred closure assigns "
+      "the named error result only while it is still nil. "
       "Byte contents, ifExists merge semantics and fault injection are not decided.", NOTE, "DESIGN.md §3 C19")
 
 claim("C20", "table extraction over go/ssa (outcome switch, runFailed dependence), TS-SCCP of isLiteralTrue/False over all value types, error-propagation and control-dependence checks from leaf to exit status",
@@ -56,7 +60,8 @@ claim("C17", "actor-goroutine closure over the VTA call graph (interpreter dispa
       "installing this request's value, after installation, the loop carries that scope, a failed update leaves it unchanged, a new watcher gets the "
       "current scope; (R17d) no unchecked map-miss dereference; (R17e) every evaluation on the actor is under a recover; (R17f) no blocking send to a "
       "client-owned channel; (R17g) no goroutine spawned from the loop (serial delivery); (R17h) a recovered panic is stored into the function's named "
-      "error result on every recovered path (otherwise a panicking update is acknowledged and installs nil). Ordering/fairness between concurrent clients is not decided.", NOTE, "DESIGN.md §3 C17")
+      "error result on every recovered path (otherwise a panicking update is acknowledged and installs nil); (R17i) the engine's mailboxes are "
+      "unbuffered (a client call returns only when the actor took the message, so calls made in sequence are served in sequence). Ordering/fairness between concurrent clients is not decided.", NOTE, "DESIGN.md §3 C17")
 
 claim("C11", "guarded-by analysis (must-hold lockset dataflow, sync.Once Do-closure / dominance), purity of callbacks passed to concurrent frozen APIs and across goroutines, condition-variable wake-up rule",
       "Decides the synchronisation conventions on every path: (R11a) callbacks handed to frozen APIs that fan out over goroutines write no "
@@ -81,11 +86,12 @@ claim("C10", "grammar/table agreement, inhabited-type analysis of unchecked asse
       "a type that no value ever has; (R10c) no interface method of a value type is an unconditional panic (24 known stubs on function values); "
       "(R10e) every goroutine root that gRPC or `go` hands us crosses a recover before compiling/evaluating client text; (R10f) no lost wake-up on "
       "the import cache's condition variable; plus the engine/import-cache liveness rules shared with C16/C17 (R17a self-communication, R17d map-miss "
-      "dereference, R17e recover on the actor, R17h recovered panic stored into the named error result, R16d re-entrant wait). Index-out-of-range, nil dereference, recursion depth and termination are not decided.", NOTE, "DESIGN.md §3 C10")
+      "dereference, R17e recover on the actor, R17h recovered panic stored into the named error result, R19h deferred stores keep the first error, R16d "
+      "re-entrant wait). Index-out-of-range, nil dereference, recursion depth and termination are not decided.", NOTE, "DESIGN.md §3 C10")
 
 claim("C15", "dominance of recorders over readers, flag-fixed reachability of host effects along all call paths from Compile, sibling agreement of archive-location derivations",
       "Decides structural necessary conditions of bundle = sources: (R15a) every import read is either bundle-run-only or dominated by its recorder "
-      "with the error propagated; (R15d) the module component of the entries SetupBundle writes is the very value it stores in config.mainRoot; (R15b) no host access (network, process, host files, cwd) is reachable from Compile while isRunningBundle is true, "
+      "with the error propagated; (R15d) the module component of the entries SetupBundle writes is the very value it stores in config.mainRoot; (R15e) no location handed to a recorder depends on an HTTP response or other environment read; (R15b) no host access (network, process, host files, cwd) is reachable from Compile while isRunningBundle is true, "
       "along every call path; (R15c) every recorder derives archive locations through the same mapping (bundleConfig.mainRoot/absRootPath or "
       "createModulePath) that the runtime re-derives. That the computed archive path equals the runtime path for every layout is string algebra "
       "and not decided.", NOTE, "DESIGN.md §3 C15")
@@ -95,12 +101,13 @@ claim("C16", "taint/dominance of the import-path sanitiser with symbolic evaluat
       "path.Clean and a dominating rejecting branch whose condition rejects every shape an escaping cleaned relative path can take (.., ../x, "
       "../../x); (R16b) root imports read rootPath + / + … from findRootFromModule; (R16c) no lost wake-up in the import cache; (R16d) a cyclic import "
       "re-enters getOrAdd with no owner test (genuine hang, known finding); (R16e) the module-root cache is written only on the true branch of the "
-      "sentinel test of the stored root. Which other strings the sanitiser lets through (whitespace, absolute "
+      "sentinel test of the stored root; (R16f) after the confinement check the path is only trimmed, prefixed, joined, cleaned or has text "
+      "removed - never rewritten by a step that can introduce separators. Which other strings the sanitiser lets through (whitespace, absolute "
       "forms), symlinks and equal values across spellings are not decided.", NOTE, "DESIGN.md §3 C16")
 
 claim("C09", "error-discipline and merge-discipline checks over every Pattern.Bind call site (go/ssa def-use, dominance), data-dependence of the agreement test",
       "Decides the error and merge discipline of pattern matching: (R09a) at each of the 19 Bind call sites the error is passed through or tested "
-      "and the bound scope is used only on the nil branch; (R09b) composite patterns combine sub-bindings only through MatchedUpdate/MatchedWith "
+      "and the bound scope - and the returned context, which carries @{name} bindings - is used only on the nil branch; (R09b) composite patterns combine sub-bindings only through MatchedUpdate/MatchedWith "
       "with the error propagated; (R09c) the agreement test on repeated names must be extensional (it is String()-based today: known finding); (R09d) for every structural pattern and every value type of another kind, Bind with that "
       "dynamic type fixed (TS-SCCP, all values of the type) reaches no nil-error return. "
       "Which values a pattern matches (index arithmetic over offsets and holes, rest capture) is value-level and not decided.", NOTE, "DESIGN.md §3 C09")
@@ -109,20 +116,23 @@ claim("C04", "symbolic evaluation of the join operators' combine/partitionNames 
       "Decides that the two implementations of every join operator agree with each other and with the operator's glyph on the output heading "
       "(R04a: 8 operators x 8 worlds, isSubset guards evaluated per world, outputs disjoint) and that the positional join's 3-bit mode switch "
       "handles all 8 modes (R04b). R01d (rows of two relations only meet under projectors) and R03a (no join writes a heading or row store an "
-      "operand still reaches) run under this property too. Row contents, column permutations "
+      "operand still reaches) run under this property too; (R04c) no relational helper that takes a per-element function has a return path that builds "
+      "its result from the input without involving that function (nestWithFunc shared by Nest and SingleAttrNest). Row contents, column permutations "
       "inside the positional joins, nest/unnest inversion and rank values are value-level and not decided.", NOTE, "DESIGN.md §3 C04")
 
 claim("C12", "table extraction and agreement (printer escape table vs reader escape switch, printer identifier pattern vs grammar IDENT), transitive field-read sets of Equal vs Format",
       "Decides codec agreement at the table level: (R12a) every backslash-letter the printer emits is mapped back to the same character by the "
       "reader, and the reader handles \\\\, both quotes and \\x; (R12b) for all 18 value types, every field Equal reads is read by Format/String "
       "(Bytes.offset is not: known finding); (R12c) names are printed unquoted only when they match the grammar's IDENT (pattern equality; no unicode "
-      "classification); (R07b, R06f) printers emit members in a sorted order. The escape reader's index arithmetic (\\xNN off-by-one), number formatting and nesting are value-level and not decided.", NOTE, "DESIGN.md §3 C12")
+      "classification); (R12d) the pattern by which Bytes.Format selects the quoted-text form accepts ASCII only (the text is written by the rune-wise "
+      "escaper); (R07b, R06f) printers emit members in a sorted order. The escape reader's index arithmetic (\\xNN off-by-one), number formatting and nesting are value-level and not decided.", NOTE, "DESIGN.md §3 C12")
 
 claim("C13", "TS-SCCP of the encoder under each (strict flag, value type) context with data-dependence of the result on the value; shape descriptors of the wire-format switch",
       "Decides two information-loss conditions of the codecs: (R13a) for no data value type with more than one inhabitant does FromArrai (strict or "
       "not) return, on every executable path, a content-independent result with a nil error, and no two singleton types share an image (strict mode "
       "maps five kinds of set to {}: known findings pinned by the existing tests); (R13b) the server wire format gives disjoint kinds distinct JSON "
-      "shapes (arrays and sets collide: known finding). Round-trip equality itself (number ranges, CSV quoting, YAML scalars, bits) is value-level "
+      "shapes (arrays and sets collide: known finding); (R13c) float->integer conversions in the codecs are the round-trip idiom or range-guarded; "
+      "(R13d) a comma-ok option value stored without its flag never overrides a non-zero default. Round-trip equality itself (number ranges, CSV quoting, YAML scalars, bits) is value-level "
       "and not decided.", NOTE, "DESIGN.md §3 C13")
 
 claim("C05", "TS-SCCP dispatch totality of CallAll/Concatenate over all representation pairs, hole-guard sibling check in the >> evaluator, store-read-implies-offset-read rule over go/ssa",
@@ -137,6 +147,7 @@ claim("C02", "construction-discipline checks over go/ssa (raw re-slices of holey
       "String/Array is built around a raw re-slice of another value's store outside a trimming constructor; (R02b) a tuple whose name set changed is "
       "returned through a canonicaliser (GenericTuple.With/Without are not: known findings); (R02c) Equal is symmetric for all 153 type pairs; (R02d) "
       "the three shape-specialising switches name all four sugar shapes; (R02e) the layout-sensitive row digest is only taken of canonicalRelation(); "
+      "(R02f) a slot builder's derived field (Array.count, String.holes) comes from a counter guarded by the slot's previous content; "
       "(R01d, R03a) shared with C01/C03. "
       "Extensionality itself and Equal within one type are not decided.", NOTE, "DESIGN.md §3 C02")
 
@@ -146,7 +157,8 @@ claim("C07", "effect analysis of printing paths (unordered sources must be order
       "collect or feed order-insensitive aggregates; (R07c) relation headings built from name sets are sorted; (R07a) the index-slot builders "
       "asArray/asString/asBytes overwrite colliding slots in enumeration order (genuine, known findings); (R06d) every sort comparator decides "
       "through Value.Less; (R06f) the tuple name-order cache is only ever stored sorted; (R02e) equal relations hash equally whatever their column "
-      "layout (otherwise set de-duplication depends on the per-process seed). A full order-sensitivity classification of all "
+      "layout (otherwise set de-duplication depends on the per-process seed); (R07d) no Less method of a value type reaches a Hash call (hashes are "
+      "seeded per process). A full order-sensitivity classification of all "
       "120 unordered loops, determinism of dependencies and of float reductions are not decided.", NOTE, "DESIGN.md §3 C07")
 
 for pid in []:
